@@ -3,6 +3,9 @@ package c05
 
 import (
 	"fmt"
+	"net/http"
+	"net/http/httptest"
+	"net/url"
 	"sort"
 	"strings"
 
@@ -179,7 +182,7 @@ func descEnum(pats []Pat, orders [][]int, paths []string, palpha string, pmax in
 	for i, p := range pats {
 		recs[i] = M{"pat": p.JSON(), "value": i + 1}
 	}
-	return M{"records": recs, "orders": orders, "paths": trace.BB(paths), "palpha": trace.B(palpha), "pmax": pmax}
+	return M{"kind": "table", "records": recs, "orders": orders, "paths": trace.BB(paths), "palpha": trace.B(palpha), "pmax": pmax}
 }
 
 func perms(n int) [][]int {
@@ -321,6 +324,28 @@ func generate(c *drv.Ctx) {
 			orders = append(orders, o)
 		}
 		c.Case(desc(ps, orders, pp))
+	}
+	// (iv) the http.Handler built by Mux.Build: per-method tables, URL.Path lookups, NotFound
+	nMux := 40
+	if thorough {
+		nMux = 400
+	}
+	methods := []string{"GET", "POST", "PUT", "HEAD"}
+	for n := 0; n < nMux; n++ {
+		ps := randomTable(c, 2+c.Rng.Intn(10))
+		var hs []M
+		for i, p := range ps {
+			hs = append(hs, M{"method": methods[c.Rng.Intn(3)], "pat": p.JSON(), "value": i + 1})
+		}
+		var reqs []M
+		for k := 0; k < 30; k++ {
+			path := instantiate(c, ps[c.Rng.Intn(len(ps))], "abcxyz019-_.~:*#=")
+			if c.Rng.Intn(3) == 0 {
+				path = mutate(c, path)
+			}
+			reqs = append(reqs, M{"method": methods[c.Rng.Intn(len(methods))], "path": trace.B(path)})
+		}
+		c.Case(M{"kind": "mux", "handlers": hs, "reqs": reqs})
 	}
 	// (iii) tables Build must reject: duplicate parameter names
 	for _, segs := range [][]string{{":x", ":x"}, {"a", ":x", "b", ":x"}, {":x", "*x"}} {
@@ -468,6 +493,9 @@ func lookup(r *denco.Router, path string) (o obs) {
 }
 
 func execute(c *drv.Ctx, d M) bool {
+	if drv.Str(d["kind"]) == "mux" {
+		return executeMux(c, d)
+	}
 	var pats []Pat
 	var vals []int
 	for _, r := range drv.List(d["records"]) {
@@ -527,4 +555,52 @@ func execute(c *drv.Ctx, d M) bool {
 		c.W.Event("lookup", M{"path": trace.B(path), "obs": os})
 	}
 	return hasParam && interesting
+}
+
+// executeMux serves requests through the http.Handler that denco.Mux builds.
+func executeMux(c *drv.Ctx, d M) bool {
+	mux := denco.NewMux()
+	var hs []denco.Handler
+	type seen struct {
+		value int
+		names []string
+		texts []string
+	}
+	var cur *seen
+	for _, hv := range drv.List(d["handlers"]) {
+		m := drv.Map(hv)
+		v := drv.Int(m["value"])
+		hs = append(hs, mux.Handler(drv.Str(m["method"]), patFromJSON(m["pat"]).Key(), func(w http.ResponseWriter, r *http.Request, ps denco.Params) {
+			cur = &seen{value: v, names: []string{}, texts: []string{}}
+			for _, p := range ps {
+				cur.names = append(cur.names, p.Name)
+				cur.texts = append(cur.texts, p.Value)
+			}
+		}))
+	}
+	h, err := mux.Build(hs)
+	c.W.Event("build", M{"err": err != nil})
+	if err != nil {
+		return true
+	}
+	for _, rv := range drv.List(d["reqs"]) {
+		m := drv.Map(rv)
+		method, path := drv.Str(m["method"]), trace.Str(m["path"])
+		cur = nil
+		o := obs{names: []string{}, texts: []string{}}
+		rec := httptest.NewRecorder()
+		func() {
+			defer func() {
+				if e := recover(); e != nil {
+					o.panic = true
+				}
+			}()
+			h.ServeHTTP(rec, &http.Request{Method: method, URL: &url.URL{Path: path}, Header: http.Header{}})
+		}()
+		if cur != nil {
+			o.found, o.value, o.names, o.texts = true, cur.value, cur.names, cur.texts
+		}
+		c.W.Event("serve", M{"method": method, "path": trace.B(path), "status": rec.Code, "obs": o.JSON()})
+	}
+	return true
 }
